@@ -17,6 +17,7 @@ pub mod c12;
 pub mod c13;
 pub mod c14;
 pub mod c16;
+pub mod c17;
 pub mod c18;
 pub mod c20;
 
@@ -84,6 +85,11 @@ pub fn run(ctx: &mut Ctx) -> bool {
             ctx.rule = c16::RULE.into();
             c16::run(ctx);
             c02::run_c16b(ctx)
+        }
+        "C17" => {
+            ctx.rule = c17::RULE.into();
+            crate::util::start_watchdog("C17".into(), 120);
+            c17::run(ctx)
         }
         "C18" => {
             ctx.rule = c18::RULE.into();
